@@ -41,10 +41,10 @@ def gaussian_form_logdensity(Q, x, precision):
     return 0.5 * (n - 1) * math.log(precision) - 0.5 * quadratic_form(Q, x) - 0.5 * (n - 1) * LOG_2PI
 
 
-def log_gamma_pdf(tau, shape, rate):
-    """log of  rate^shape / Gamma(shape) * tau^(shape-1) * exp(-rate tau)  (vectorised in tau
-    given as log tau to stay finite over hundreds of orders of magnitude)."""
-    u = np.asarray(tau, dtype=float)  # u = log tau
+def log_gamma_pdf(u, shape, rate):
+    """log of  rate^shape / Gamma(shape) * tau^(shape-1) * exp(-rate tau)  as a function of
+    u = log(tau) (vectorised; stays finite over hundreds of orders of magnitude)."""
+    u = np.asarray(u, dtype=float)
     return shape * math.log(rate) - math.lgamma(shape) + (shape - 1.0) * u - rate * np.exp(u)
 
 
